@@ -414,4 +414,141 @@ fn harden(rng: &mut Rng, thorough: bool, emit: &mut dyn FnMut(String)) {
         let ys: Vec<f64> = (0..n).map(|i| if i % 2 == 0 { f64::MAX } else { -f64::MAX }).collect();
         emit_all(emit, &ys, n);
     }
+    edge_of_range(rng, thorough, emit);
+}
+
+/// `steps` units in the last place above the positive number `x` (crossing binade boundaries and the
+/// subnormal / normal boundary like the reals do)
+fn ulps_above(x: f64, steps: u64) -> f64 {
+    f64::from_bits(x.to_bits() + steps)
+}
+
+/// THE EDGE OF THE NUMBER RANGE (third seeded round).  The statement's range is |x| <= 1e6, so values of every small
+/// magnitude are inside it: samples whose values agree to within 1..8 units in the last place at EVERY binade from the
+/// smallest subnormal to 1e6 (the largest deviation is then far below the values: below 2^-1024, where a reciprocal
+/// overflows, for values below 2^-972), samples of deep subnormals, whole samples of magnitude 1e-323 .. 1e-290, exact
+/// translations / scalings down there, geometric means of tiny positive values.
+fn edge_of_range(rng: &mut Rng, thorough: bool, emit: &mut dyn FnMut(String)) {
+    let reps = if thorough { 12 } else { 1 };
+    let mut k = 0usize;
+    for _ in 0..reps {
+        // (f) spread of 1..8 ulps in every binade 2^-1074 .. 2^19 (1e6 < 2^20)
+        for e in -1074..=19i64 {
+            let base = if e < -1022 {
+                // subnormal: k 2^-1074 with 2^(e+1074) <= k < 2^(e+1075)
+                let lo = 1u64 << (e + 1074);
+                f64::from_bits(lo + rng.below(lo))
+            } else {
+                2f64.powi(e as i32) * rng.uniform(1.0, 2.0)
+            };
+            let spread = 1 + rng.below(8);
+            let n = *rng.pick(&[2usize, 2, 3, 4, 5, 8, 9, 17, 40, 200]);
+            let neg = rng.chance(1, 3);
+            let mut xs: Vec<f64> = (0..n)
+                .map(|i| {
+                    let j = if i == 0 { 0 } else if i == 1 { spread } else { rng.below(spread + 1) };
+                    let x = ulps_above(base, j);
+                    if neg { -x } else { x }
+                })
+                .collect();
+            if rng.chance(1, 2) {
+                xs.reverse();
+            }
+            k += 1;
+            emit(format!("samplepop {}", req_vec_f(&xs)));
+            match k % 4 {
+                0 => emit(format!("mean {}", req_vec_f(&xs))),
+                1 => emit(format!("std p {}", req_vec_f(&xs))),
+                2 => emit(format!("std s {}", req_vec_f(&xs))),
+                _ => {}
+            }
+        }
+        // the spelled-out neighbours: [x, next_up(x)] for powers of ten and two
+        for x in [1e-300, 1e-308, 1e-292, 1e-293, 1e-200, 1e-162, 1e-154, 1e-100, 1e-16, 0.1, 1.0, 1e6 - 1.0, 999_999.999_999_999_9] {
+            for st in [1u64, 2, 4] {
+                let xs = [x, ulps_above(x, st)];
+                emit(format!("samplepop {}", req_vec_f(&xs)));
+                emit(format!("std s {}", req_vec_f(&[-xs[1], -xs[0], -xs[1]])));
+            }
+        }
+        for e in [-1074i32, -1073, -1060, -1030, -1025, -1024, -1023, -1022, -1021, -1000, -973, -972, -971, -970, -600, -540, -538, -537, -536, -512, -500] {
+            let x = if e < -1022 { f64::from_bits(1u64 << (e + 1074)) } else { 2f64.powi(e) };
+            // 40 values within 4 ulps of a power of two (on both sides of it when it is not the smallest number)
+            let xs: Vec<f64> = (0..40).map(|i| if e > -1074 && i % 3 == 0 { f64::from_bits(x.to_bits() - 1 - (i as u64 % 2)) } else { ulps_above(x, i as u64 % 5) }).collect();
+            emit(format!("samplepop {}", req_vec_f(&xs)));
+            emit(format!("std p {}", req_vec_f(&xs)));
+            emit(format!("mean {}", req_vec_f(&xs)));
+        }
+        // (g) deep subnormals: k 2^-1074 with k < 2^b, b = 1..52, any signs; zeros among them
+        for b in 1..=52u32 {
+            for style in 0..3 {
+                let n = *rng.pick(&[2usize, 3, 5, 8, 9, 33, 200]);
+                let mut xs: Vec<f64> = (0..n)
+                    .map(|_| {
+                        let x = f64::from_bits(rng.below(1u64 << b));
+                        match style {
+                            0 => x,
+                            1 => if rng.chance(1, 2) { -x } else { x },
+                            _ => if rng.chance(1, 3) { 0.0 } else { x },
+                        }
+                    })
+                    .collect();
+                // not constant
+                xs[0] = f64::from_bits((1u64 << b) - 1);
+                xs[n - 1] = if style == 1 { -f64::from_bits(1) } else { 0.0 };
+                k += 1;
+                emit(format!("samplepop {}", req_vec_f(&xs)));
+                if k % 2 == 0 {
+                    emit(format!("mean {}", req_vec_f(&xs)));
+                    emit(format!("std {} {}", if k % 4 == 0 { "p" } else { "s" }, req_vec_f(&xs)));
+                }
+            }
+        }
+        let tiny = f64::from_bits(1);
+        for xs in [vec![0.0, tiny], vec![tiny, 0.0], vec![tiny, 2.0 * tiny], vec![-tiny, tiny], vec![0.0, 0.0, tiny], vec![tiny, tiny, 2.0 * tiny, tiny], vec![0.0, f64::MIN_POSITIVE], vec![f64::MIN_POSITIVE, ulps_above(f64::MIN_POSITIVE, 1)], vec![f64::MIN_POSITIVE, f64::from_bits(f64::MIN_POSITIVE.to_bits() - 1)], vec![-0.0, tiny, -tiny]] {
+            emit(format!("samplepop {}", req_vec_f(&xs)));
+            emit(format!("std p {}", req_vec_f(&xs)));
+            emit(format!("std s {}", req_vec_f(&xs)));
+            emit(format!("mean {}", req_vec_f(&xs)));
+        }
+        // (h) whole samples of magnitude 10^e, e = -323 .. -290 and -170 .. -150 (squares of deviations underflow below
+        // 1e-154), ordinary relative spread
+        for e in (-323..=-290i32).chain(-170..=-150) {
+            let n = *rng.pick(&[2usize, 3, 5, 8, 9, 17, 64, 200]);
+            let scale = if e < -300 { 10f64.powi(e + 300) * 1e-300 } else { 10f64.powi(e) };
+            let xs: Vec<f64> = (0..n).map(|_| scale * rng.uniform(0.5, 1.0) * if rng.chance(1, 2) { -1.0 } else { 1.0 }).collect();
+            k += 1;
+            emit_all(emit, &xs, k);
+        }
+        // (i) exact translations and scalings down there: integers times 2^e, shift an integer times 2^e, factor +-2^s
+        for e in [-1074i32, -1070, -1060, -1030, -1022, -1000, -972, -600, -540, -537, -530] {
+            let unit = if e < -1022 { f64::from_bits(1u64 << (e + 1074)) } else { 2f64.powi(e) };
+            let n = *rng.pick(&[2usize, 3, 8, 9, 40]);
+            let xs: Vec<f64> = (0..n).map(|i| (if i == 0 { 7 } else { rng.range(-100, 100) }) as f64 * unit).collect();
+            let c = rng.range(-1000, 1000) as f64 * unit;
+            emit(format!("translate {} {} {}", if k % 2 == 0 { "p" } else { "s" }, rbits(c), req_vec_f(&xs)));
+            let f = 2f64.powi(rng.range(1, 12) as i32) * if rng.chance(1, 2) { -1.0 } else { 1.0 };
+            emit(format!("scale {} {} {}", if k % 2 == 0 { "s" } else { "p" }, rbits(f), req_vec_f(&xs)));
+            k += 1;
+        }
+        // (j) geometric means of tiny positive values: subnormal, around the smallest normal number, mixed with ordinary ones
+        for b in [1u32, 2, 3, 8, 20, 40, 52] {
+            for n in [1usize, 2, 3, 9, 64, 200] {
+                let xs: Vec<f64> = (0..n).map(|_| f64::from_bits(1 + rng.below(1u64 << b))).collect();
+                emit(format!("geom {}", req_vec_f(&xs)));
+            }
+        }
+        for _ in 0..30 {
+            let n = *rng.pick(&[2usize, 3, 8, 9, 17, 100, 200]);
+            let style = rng.below(3);
+            let xs: Vec<f64> = (0..n)
+                .map(|_| match style {
+                    0 => 2f64.powi(-rng.range(1000, 1022) as i32) * rng.uniform(1.0, 2.0),
+                    1 => if rng.chance(1, 2) { f64::from_bits(1 + rng.below(1u64 << 30)) } else { rng.uniform(1.0, 1e6) },
+                    _ => 10f64.powf(rng.uniform(-323.0, -290.0)).max(f64::from_bits(1)),
+                })
+                .collect();
+            emit(format!("geom {}", req_vec_f(&xs)));
+        }
+    }
 }
